@@ -5,6 +5,7 @@ import BacVerif.Model.Codec
 import BacVerif.Model.SchemaWF
 import BacVerif.Model.Typed
 import BacVerif.Gen.Schemas
+import BacVerif.Gen.Enums
 open Lean BacVerif BacVerif.Drv BacVerif.Schema BacVerif.Codec BacVerif.Typed
 
 partial def jVal : Val → Json
@@ -187,6 +188,21 @@ def handle (env : Env) (j : Json) : R (Env × Json) := do
           | .ok b => jHex b
           | .error e => Json.str ("err:" ++ e.name)
         pure (env, jOk [("tv", jTVal tv), ("re", re)])
+  | "enumnames" => -- `Enumerated.decode`: the NAME the class's table gives a number (C01 `xlateNum`
+                   -- over the generated tables), null when the table has none
+      let qs ← fldArr j "q"
+      let out ← qs.toList.mapM fun q => do
+        let a ← q.getArr?
+        if a.size ≠ 2 then throw "enumnames: need [class, number]"
+        let cls ← a[0]!.getStr?
+        let n ← a[1]!.getNat?
+        match Gen.Enums.enumTables.lookup cls with
+        | none => pure (Json.str "?unknown-class")
+        | some T =>
+          match xlateNum T n with
+          | some nm => pure (Json.str (String.ofList (nm.map Char.ofNat)))
+          | none => pure Json.null
+      pure (env, jOk [("names", Json.arr out.toArray)])
   | "castin" =>    -- Any.cast_in(element): the tags appended
       let r ← refOfJson (← fld j "ref")
       let v ← valOfJson (← fld j "v")
